@@ -64,6 +64,14 @@ func modFamily(th bool) []*pg.Program {
 	feat("debug-other", func(p *pg.Program) { p.F.DebugImp = "other" })
 	feat("cff-alias", func(p *pg.Program) { p.F.CffAlias = "c" })
 	feat("surround", func(p *pg.Program) { p.F.Surround = true })
+	// hand-written inputs (compiled in both modes, not executed)
+	for _, p := range specialFamily() {
+		if p.Raw != "" && (strings.Contains(p.Fam, "types-spelled-differently") || strings.Contains(p.Fam, "results-same-type-twice") || strings.Contains(p.Fam, "very-long-line")) {
+			q := *p
+			q.Fam = "MOD:raw:" + strings.TrimPrefix(p.Fam, "S:")
+			ps = append(ps, &q)
+		}
+	}
 	for i, p := range ps {
 		p.ID = fmt.Sprintf("M%04d", i)
 	}
@@ -76,6 +84,9 @@ func c20Modifier(tier, build, overlay, repo, cffBin string, rep *mc.Reporter) ma
 	pl := &plan{progs: progs, modes: []genMode{{"base", false}}}
 	pl.scen = func(p *pg.Program) []genrt.Scenario {
 		var out []genrt.Scenario
+		if p.Flow == nil {
+			return nil // hand-written input: compiled only
+		}
 		ns := []int{1, 2}
 		if p.Flow.Conc != "expr" {
 			ns = []int{0}
